@@ -831,8 +831,8 @@ def _type(p):
         if special:
             body = s[p.i:j - 1]
             p.i = j
-            if re.match(r"^\w+ in \{", body):
-                return [1]      # guard type {x in {...}}: a subtype of Bool
+            if not body.startswith("%") and " in {" in body:
+                return [1]      # guard type {e in {...}} (the type of a comparison): a subtype of Bool
             raise ValueError("refinement")
         vals = []
         while True:
